@@ -82,7 +82,12 @@ CHECKS.update({
          "10 secret-bearing types (incl. the refresh form of the round-one secret package and t = n shapes) x suites x seeds: on drop no freed block contains the in-memory image of any secret scalar (control without destructor must show it, and the box must have been observed); zeroize() leaves every secret getter zero and nothing secret re-encodable; Debug / alternate Debug contain no rendering of any secret scalar.",
          "Stack / register copies and library-internal temporaries are not 'the storage it occupied' and are only recorded.", "DESIGN 4 C20"),
 })
-NOT_APPLICABLE = {"C02": "check not built yet (Python RFC 9591 reference is the last item of the build order)"}
+CHECKS.update({
+ "C02": ("exploration", "bounded-exhaustive shape enumeration with byte-for-byte differential comparison of every intermediate against an independent from-scratch reference pinned to the RFC 9591 vectors",
+         "Suites x (n,t) x 5 identifier kinds x dealer/DKG x every signer subset x the message alphabet, nonces from commit() and from the k-th pair of preprocess batches: a transcript of inputs (shares, the 64 random bytes per signer, message) and every intermediate (nonces, commitments, encoded commitment list and order, binding-factor inputs, binding factors, group commitment, challenge, interpolation coefficients, shares, signature) is recomputed by /verif/ref/frostref.py (big-integer curves + hashlib; Taproot flow derived from BIP-340/341) which in the same run reproduces every value of the frozen RFC 9591 appendix vectors; all 65535 u16 identifier encodings and their order; single-signer signatures verified by the reference and reference signatures verified by the library.",
+         "The Python reference is trusted after its pin; scalars are seeded streams (value-genericity, DESIGN 2).", "DESIGN 4 C02"),
+})
+NOT_APPLICABLE = {}
 
 def main():
     checks = []
